@@ -56,6 +56,23 @@ func c28Serve(conn net.Conn) {
 		}
 		return w.Flush()
 	}
+	// a record whose body follows its header after a pause: the pair stays one frame on the wire (as the real
+	// agent writes header and body under one lock); another reply cannot slip in between
+	sendSlow := func(hdr, body any, pause time.Duration) error {
+		wl.Lock()
+		defer wl.Unlock()
+		if err := enc.Encode(hdr); err != nil {
+			return err
+		}
+		if err := w.Flush(); err != nil {
+			return err
+		}
+		time.Sleep(pause)
+		if err := enc.Encode(body); err != nil {
+			return err
+		}
+		return w.Flush()
+	}
 	var mu sync.Mutex
 	stopped := map[uint64]time.Time{}
 	for {
@@ -101,11 +118,7 @@ func c28Serve(conn net.Conn) {
 						rec = map[string]any{"Type": typ, "From": "n" + strconv.Itoa(i), "Payload": []byte("r")}
 					}
 					if c28SlowBody > 0 {
-						if err := send(&c28Resp{Seq: seq}); err != nil {
-							return
-						}
-						time.Sleep(c28SlowBody)
-						if err := send(rec); err != nil {
+						if err := sendSlow(&c28Resp{Seq: seq}, rec, c28SlowBody); err != nil {
 							return
 						}
 					} else if err := send(&c28Resp{Seq: seq}, rec); err != nil {
